@@ -106,7 +106,21 @@ def strip_drop_scaffolding(raw):
             isdisc = any(st["k"] == "assign" and st["place"]["local"] == l and st["rv"]["k"] == "discriminant" for st in b["stmts"])
             if not isdisc:
                 return False
-            return all(chain_ok(x, depth + 1) for x in succ)
+            if all(chain_ok(x, depth + 1) for x in succ):
+                return True
+            # `[0: J, otherwise: D]` with D: drop(..) -> J : a re-test that only decides whether
+            # something is dropped before J
+            real = [x for x in set(succ) if not chain_ok(x, depth + 1)]
+            if len(real) != 1:
+                return False
+            j = real[0]
+            for x in set(succ):
+                if x == j:
+                    continue
+                ch = chain(x)
+                if j not in ch or not any(blocks[y]["term"]["k"] == "drop" for y in ch[:ch.index(j)]):
+                    return False
+            return True
 
         def chain_ok(i, depth):
             """block i is scaffolding: only flag resets / discriminant reads, ending in drop / goto /
